@@ -8,4 +8,6 @@ mkdir -p .cache work evidence replays
 CARGO_TARGET_DIR="$PWD/.cache/target" cargo build --offline --manifest-path harness/Cargo.toml
 # the real rcomp binary (C17 compares its output with the API's; C16 runs it)
 CARGO_TARGET_DIR="$PWD/.cache/target-repo" cargo build --offline --manifest-path /repo/Cargo.toml -p rustemo-compiler --bin rcomp
+# dependencies of the batch crates that compile the REAL generated parsers (C08, C10, C11)
+python3 gen/batch.py warm
 echo setup-ok
